@@ -38,8 +38,11 @@ class Gen:
             return self.param(use)
         if r < 0.6:
             return self.rng.choice(CONCRETE)
-        if r < 0.68:
+        if r < 0.64:
             return "%s::Assoc" % self.param(use)                 # leading segment: a use
+        if r < 0.68:
+            # a generic associated type projected from a parameter: the leading segment AND the arguments further on are uses
+            return "%s::Member<%s>" % (self.param(use), self.lt(use) if self.rng.random() < 0.3 else self.param(use))
         if r < 0.74:
             return "a::%s" % self.param(False)                   # path tail: not a use
         if r < 0.80:
